@@ -195,3 +195,71 @@ MUTANTS = [
     M("enabler-compared-with-equals", "src/allmydata/storage/mutable.py",
       "        if not timing_safe_compare(write_enabler, real_write_enabler):", "        if write_enabler != real_write_enabler:", "C30.7"),
 ]
+
+# ---- the registering method of UploadsInProgress found by role (renamed / batched / wrapped / parameters reordered):
+# behaviour-preserving variants defined for C31, plus breaking counterparts for the clause C30.4 decides on them
+try:
+    from .C31 import MUTANTS as _C31_MUTANTS, ADD_OLD as _ADD_OLD, CALL_OLD as _CALL_OLD, CALL_BATCH as _CALL_BATCH, \
+        BATCH_HEAD as _BATCH_HEAD
+    _c31 = {m.id: m for m in _C31_MUTANTS}
+    for _vid in ("benign-uploads-add-renamed", "benign-uploads-batched-add-merges",
+                 "benign-uploads-batched-add-membership-and-empty-guard",
+                 "benign-uploads-batched-wrapper-over-per-share", "benign-uploads-add-reordered-params"):
+        _v = _c31.get(_vid)
+        if _v is not None and _v.expect is None:
+            MUTANTS.append(M("c31-" + _vid, _v.path, _v.old, _v.new, None, within=_v.within, edits=list(_v.edits)))
+    _w = _c31.get("uploads-wrapper-registers-under-secret")
+    if _w is not None:
+        MUTANTS.append(M("c31-wrapper-files-under-storage-index", _w.path, _w.old, _w.new, "C30.4", edits=list(_w.edits)))
+    _BATCH_SETDEFAULT = "        si_uploads = self._uploads.setdefault(storage_index, StorageIndexUploads())\n"
+    MUTANTS += [
+        M("batched-add-files-under-storage-index", F, _ADD_OLD,
+          _BATCH_HEAD + _BATCH_SETDEFAULT +
+          "        for share_number, bucket in buckets.items():\n"
+          "            si_uploads.shares[share_number] = bucket\n"
+          "            si_uploads.upload_secrets[share_number] = storage_index\n"
+          "            self._bucketwriters[bucket] = (storage_index, share_number)\n", "C30.4",
+          edits=[(F, _CALL_OLD, _CALL_BATCH)]),
+        M("batched-add-call-passes-lease-secret", F, _ADD_OLD,
+          _BATCH_HEAD + _BATCH_SETDEFAULT +
+          "        for share_number, bucket in buckets.items():\n"
+          "            si_uploads.shares[share_number] = bucket\n"
+          "            si_uploads.upload_secrets[share_number] = upload_secret\n"
+          "            self._bucketwriters[bucket] = (storage_index, share_number)\n", "C30.4",
+          edits=[(F, _CALL_OLD, "        self._uploads.add_write_buckets(storage_index, "
+                  "authorization[Secrets.LEASE_CANCEL], sharenum_to_bucket)\n")]),
+        M("batched-add-secret-by-wrong-keyword", F, _ADD_OLD,
+          _BATCH_HEAD + _BATCH_SETDEFAULT +
+          "        for share_number, bucket in buckets.items():\n"
+          "            si_uploads.shares[share_number] = bucket\n"
+          "            si_uploads.upload_secrets[share_number] = upload_secret\n"
+          "            self._bucketwriters[bucket] = (storage_index, share_number)\n", "C30.4",
+          edits=[(F, _CALL_OLD, "        self._uploads.add_write_buckets(\n            buckets=sharenum_to_bucket, "
+                  "upload_secret=storage_index, storage_index=upload_secret\n        )\n")]),
+        M("add-params-reordered-at-definition-only", F,
+          "        storage_index: bytes,\n        share_number: int,\n        upload_secret: bytes,\n        bucket: BucketWriter,\n    ):\n",
+          "        storage_index: bytes,\n        upload_secret: bytes,\n        share_number: int,\n        bucket: BucketWriter,\n    ):\n",
+          "C30.4"),
+        M("renamed-add-returns-previous-writer", F, "    def add_write_bucket(\n", "    def track_writer(\n", "C30.4",
+          edits=[(F, "            self._uploads.add_write_bucket(\n", "            self._uploads.track_writer(\n"),
+                 (F, "        si_uploads.shares[share_number] = bucket\n",
+                  "        previous = si_uploads.shares.get(share_number)\n        si_uploads.shares[share_number] = bucket\n"),
+                 (F, "        self._bucketwriters[bucket] = (storage_index, share_number)\n",
+                  "        self._bucketwriters[bucket] = (storage_index, share_number)\n        return previous\n")]),
+        M("batched-add-secrets-bulk-filled", F, _ADD_OLD,
+          _BATCH_HEAD + _BATCH_SETDEFAULT +
+          "        si_uploads.upload_secrets.update({k: upload_secret for k in buckets})\n"
+          "        for share_number, bucket in buckets.items():\n"
+          "            si_uploads.shares[share_number] = bucket\n"
+          "            self._bucketwriters[bucket] = (storage_index, share_number)\n", "ANALYSIS-ERROR",
+          edits=[(F, _CALL_OLD, _CALL_BATCH)]),
+        M("registration-moved-to-unrouted-helper", F, _CALL_OLD,
+          "        self._register(storage_index, upload_secret, sharenum_to_bucket)\n", "ANALYSIS-ERROR",
+          edits=[(F, "    @_authorized_route(\n        _app,\n        {Secrets.LEASE_RENEW, Secrets.LEASE_CANCEL, Secrets.UPLOAD},\n",
+                  "    def _register(self, storage_index, upload_secret, sharenum_to_bucket):\n"
+                  "        for share_number, bucket in sharenum_to_bucket.items():\n"
+                  "            self._uploads.add_write_bucket(storage_index, share_number, upload_secret, bucket)\n\n"
+                  "    @_authorized_route(\n        _app,\n        {Secrets.LEASE_RENEW, Secrets.LEASE_CANCEL, Secrets.UPLOAD},\n")]),
+    ]
+except ImportError:
+    pass
